@@ -24,6 +24,9 @@ func init() {
 		return one(genW1("C03", seed, p))
 	}
 	generators["C05"] = func(seed uint64, tier string) []*Scenario {
+		if (tier == "quick" && seed%100 == 7) || (tier != "quick" && seed%25 == 7) {
+			return one(genC05Age(seed)) // delivery known only from the log after cache ageing (W2)
+		}
 		p := profile{maxFiles: 6, maxFaults: 5, orders: true, deletes: false, fineNet: true, hotGates: true, recvCrashes: 1, sendCrashes: 1, smallPoll: true,
 			faultKinds: []string{"drop_resp", "drop_resp", "cut_resp_at", "stall", "cut_after_recorded"}}
 		sc := genW1("C05", seed, p)
